@@ -50,7 +50,9 @@ pub struct Project { pub groups: Vec<RuleGroup>, pub words: Vec<(String, String)
 
 const SAFE_RULES: [&str; 16] = ["a > e / _#", "p > b / V_V", "V > [+nasal] / _N", "t > * / _#", "* > ə / #_s", "$ > * / V_V", "C=1 V=2 > 2 1 / #_", "[+voice] > [-voice] | _#", "%:[+stress] > [-stress]", "n > m / _{p,b}", "s > ʃ / _i ;; palatalisation",
     "k > t͡ʃ / _[+front]", "V:[+long] > [-long]", "e, o > i, u / _C#", "[+cons, -son] > [+voice] / V_V", "r...l > &"];
-const NAME_PARTS: [&str; 12] = ["Grimm's Law", "Umlaut", "final devoicing", "Step", "Cluster Simplification", "Hap(lo)logy", "Great Vowel Shift", "i-mutation", "Palatalisation #2", "syncope", "LENITION", "a > e"];
+// (the non-ASCII ones have simple one-to-one case mappings: names are compared case-insensitively by `seq` filters)
+const NAME_PARTS: [&str; 17] = ["Grimm's Law", "Umlaut", "final devoicing", "Step", "Cluster Simplification", "Hap(lo)logy", "Great Vowel Shift", "i-mutation", "Palatalisation #2", "syncope", "LENITION", "a > e",
+    "Ö-Umlaut", "Ægir's Law", "Ñ-shift", "Žeta Ω", "Ябло́ко É"];
 const DESC_LINES: [&str; 8] = ["Voiceless plosives become fricatives", "see Ringe 2006: 93", "- note: ordered before umlaut", "only in unstressed syllables!", "x > y / _z", "TODO", "(regular)", "Chain shift of the three series"];
 
 pub fn rand_group(r: &mut Rng, idx: usize, unique: bool) -> RuleGroup {
